@@ -164,7 +164,7 @@ func lmIngest(name string) func(uuid string) error {
 	return func(uuid string) error {
 		l := lmdrive.LM{Name: name, G: lmGeom}
 		r := l.PostRaw(uuid, [3]int32{0, 0, 0}, [3]int32{32, 32, 32}, labelVolume(), false)
-		drive.Settle(uuid)
+		settle()
 		return okOrErr(r, "labelmap POST raw")
 	}
 }
@@ -176,7 +176,7 @@ func lmContent(name string) func(uuid string) error {
 		if err := okOrErr(r, "labelmap merge"); err != nil {
 			return err
 		}
-		drive.Settle(uuid)
+		settle()
 		return nil
 	}
 }
@@ -312,7 +312,7 @@ func annValid() map[string]validFn {
 func annContent(name string) func(uuid string) error {
 	return func(uuid string) error {
 		r := drive.Post("node/"+uuid+"/"+name+"/elements", []byte(annElements))
-		drive.Settle(uuid)
+		settle()
 		return okOrErr(r, "annotation POST elements")
 	}
 }
@@ -347,7 +347,7 @@ func imgSpec(typename string) *typeSpec {
 		setup: func(root string) error { return drive.NewInstance(root, typename, name, bsCfg) },
 		content: func(uuid string) error {
 			r := drive.Post("node/"+uuid+"/"+name+"/raw/0_1_2/32_32_16/0_0_0", imgBytes(32*32*16, nb, 1))
-			drive.Settle(uuid)
+			settle()
 			return okOrErr(r, typename+" POST raw")
 		},
 		reads: func() []readReq {
@@ -577,7 +577,7 @@ func labelblkSpec() *typeSpec {
 		setup: func(root string) error { return drive.NewInstance(root, "labelblk", name, bsCfg) },
 		content: func(uuid string) error {
 			r := drive.Post("node/"+uuid+"/"+name+"/raw/0_1_2/32_32_32/0_0_0", u64bytes(labelVolume()))
-			drive.Settle(uuid)
+			settle()
 			return okOrErr(r, "labelblk POST raw")
 		},
 		reads: func() []readReq {
@@ -651,7 +651,7 @@ func labelarraySpec() *typeSpec {
 		setup: func(root string) error { return drive.NewInstance(root, "labelarray", name, bsCfg) },
 		content: func(uuid string) error {
 			r := drive.Post("node/"+uuid+"/"+name+"/raw/0_1_2/32_32_32/0_0_0", u64bytes(labelVolume()))
-			drive.Settle(uuid)
+			settle()
 			return okOrErr(r, "labelarray POST raw")
 		},
 		reads: func() []readReq {
@@ -729,7 +729,7 @@ func tarsvSpec() *typeSpec {
 			g := func(t string) readReq { return readReq{Method: "GET", Tail: name + "/" + t} }
 			out := []readReq{{Method: "GET", Tail: name + "/exists", Body: []byte("[1,2,3,4,5,6]")}}
 			for _, id := range []int{1, 2, 3, 4, 5, 6} {
-				out = append(out, g(fmt.Sprintf("supervoxel/%d", id)), readReq{Method: "GET", Tail: fmt.Sprintf("%s/tarfile/%d", name, id), Norm: "tar"}, g(fmt.Sprintf("missing/%d", id)))
+				out = append(out, g(fmt.Sprintf("supervoxel/%d", id)), readReq{Method: "GET", Tail: fmt.Sprintf("%s/tarfile/%d", name, id), Norm: "tar"}, readReq{Method: "GET", Tail: fmt.Sprintf("%s/missing/%d", name, id), Norm: "jsonset"})
 			}
 			return out
 		},
